@@ -470,6 +470,12 @@ func (o *Omni) absorb(s *Shadow, d *refotr.Data, r *CallResult) *MsgInfo {
 	text, tlvs, err := refotr.ParsePlain(plain)
 	if err != nil {
 		bad("plaintext/TLV layout: %v", err)
+		// the human-readable part is still what a receiver shows: everything up to the first NUL
+		if i := bytes.IndexByte(plain, 0); i >= 0 {
+			mi.Text = append([]byte{}, plain[:i]...)
+		} else {
+			mi.Text = append([]byte{}, plain...)
+		}
 		return mi
 	}
 	mi.Text, mi.TLVs, mi.OK = text, tlvs, true
